@@ -87,8 +87,14 @@ Complete5(c) ==
 Ref(c) == IF c.prev = <<>> THEN c.centres ELSE c.prev
 Cost16(c, q) == (16 - c.w16) * Dist1(q, Ref(c)) + c.w16 * Dist1(q, c.centres)
 COST_BAND == 16 * 14
+\* Through a parallelogram coupling only the nearest-representative clause is stated (the wrapper re-couples a joint
+\* after the wrapped solver ordered its own, de-coupled vectors, so cost order and "previous first" are the leaf's).
 Ordered(c) ==
-  IF ~(Continuing(c) /\ c.prev_in_range /\ ~c.pgram) THEN {}
+  IF ~(Continuing(c) /\ c.prev_in_range) THEN {}
+  ELSE IF c.pgram THEN
+    (IF \E i \in 1..Len(c.answers) : \E j \in 1..(IF FiveDof(c) THEN 5 ELSE 6) :
+           Abs(c.answers[i].q[j]) > 9000000 \/ Abs(c.answers[i].q[j] - Ref(c)[j]) > HALF_AU + EQ_AU
+     THEN {"C04:not-nearest-representative"} ELSE {})
   ELSE LET qs == Qs(c) IN
     \* previous is within +-2 pi here, so every answer must be within +-3 pi; anything beyond +-900 degrees (clamped or
     \* non-finite values) is flagged without doing arithmetic on it (32-bit integers)
